@@ -24,8 +24,7 @@ from collections import OrderedDict
 from ..common import REPO, LEAN
 from .. import futil  # noqa: F401  (imports funsor from FUNSOR_REPO before c17_rt does)
 
-from . import c17_rt as RT
-from .c17_rt import (FI, INTERP, STACK, BASE, PROBES, PROBE_CLASS, OBSERVABLE, USER_LEAVES, USER_CHAINS,
+from .c17_rt import (FI, STACK, BASE, PROBES, PROBE_CLASS, OBSERVABLE, USER_LEAVES, USER_CHAINS,
                      USER_RULES, CANON, CATCHABLE, ProbeError, RealRun, probe_args, live_names, adjoint_ops,
                      DispatchedInterpretation, PrioritizedInterpretation)
 
@@ -831,10 +830,12 @@ def search(ctx, broken):
 
 
 def replay(ctx, doc):
-    w = doc.get("witness") or {}
+    """Re-run a replay document: the embedded snippet for an input witness, the Lean build for an obligation."""
     py = doc.get("python")
     if py:
         g = {}
         exec(py, g)
         return bool(g.get("FAILS", False))
-    return True
+    extract(ctx)
+    ctx.build()
+    return not ctx.build_ok
